@@ -49,6 +49,14 @@ func checkC05(c *Ctx) {
 			}
 		}
 	}, func(o *coreObl) (string, bool) { return "R05.2", o.Rule == "R06.2" })
+	// "while its result stays fresh" / "the error is served from the failure cache": the default backend of both the value cache and
+	// the failure cache keeps one entry per 64-bit index, so the stored result survives other keys' writes only as long as the
+	// index is the xxhash of the entire key (C07 R07.1): a weaker index makes ordinary distinct keys displace each other
+	c.borrowKinds("C07", func() {
+		for _, b := range backends {
+			c.c07Index(b)
+		}
+	}, "R05.2", "backends:one-entry-per-key-hash", []string{"R07.1"}, "hash-of-key", "restore-index")
 	// R05.7: "a burst costs exactly one successful build" needs the election of C01: one owner per key, the builder only under
 	// ownership, the key lock held until the (possibly background) build is over
 	c.borrow("C01", func() {
